@@ -10,7 +10,7 @@ import time
 from sim import core, pool as poolmod
 
 
-def build_pool(seed, tier, n_corpus=None, n_synth=None, want_values=False):
+def build_pool(seed, tier, n_corpus=None, n_synth=None, n_ops=None, want_values=False):
     """Seeded sample of the corpus (stratified by file) plus synthetic messages, admitted."""
     rng = random.Random(core.derive_seed(seed, 'pool', 'sample', 0))
     corpus = poolmod.corpus_messages()
@@ -30,9 +30,13 @@ def build_pool(seed, tier, n_corpus=None, n_synth=None, want_values=False):
     chosen.extend(rest[:max(0, n_corpus - len(chosen))])
     chosen = chosen[:max(n_corpus, 1)] if n_corpus < len(chosen) else chosen
     synth = poolmod.synthetic_messages(core.derive_seed(seed, 'pool', 'synth', 0) % (1 << 31), n_synth)
+    if n_ops is None:
+        n_ops = max(10, n_synth // 3)
+    synth += poolmod.operator_messages(core.derive_seed(seed, 'pool', 'ops', 0) % (1 << 31), n_ops)
     admitted, rejected, mismatches = poolmod.admit_all(chosen + synth, want_values=want_values)
     info = {'corpus': sum(1 for e in admitted if e['src'] == 'corpus'),
             'synthetic': sum(1 for e in admitted if e['src'] == 'synth'),
+            'operator_templates': sum(1 for e in admitted if e['src'] == 'operator'),
             'rejected': len(rejected), 'rejected_refs': [r['ref'] for r in rejected][:10],
             'pool_mismatch': mismatches[:10]}
     return admitted, info
@@ -75,12 +79,19 @@ def check_main(prop, tier, engine, engine_name, families, level, rule, assumptio
     for mm in pinfo['pool_mismatch']:
         print('POOL-MISMATCH %s' % json.dumps(mm)[:300])
     stats = Stats()
+    if hasattr(engine, 'prepare_pool'):
+        pool = engine.prepare_pool(pool)
+        print('engine pool: %d messages (%.1fs)' % (len(pool), time.time() - t0))
     for fam, qn, tn in families:
         n = qn if tier == 'quick' else tn
         if not n:
             continue
         t1 = time.time()
         runs = run_family(engine, engine_name, fam, n, seed, pool, tier)
+        t2 = time.time()
+        if hasattr(engine, 'before_oracle'):
+            engine.before_oracle(runs)
+            print('  executed in %.1fs, references in %.1fs' % (t2 - t1, time.time() - t2))
         nv = 0
         for i, (plan, st, tr) in enumerate(runs):
             stats.evaluations += 1
@@ -137,7 +148,7 @@ def check_main(prop, tier, engine, engine_name, families, level, rule, assumptio
 
 
 def _same(a, b):
-    keys = ('property', 'clause', 'exc_type', 'raise_site')
+    keys = ('property', 'clause', 'exc_type', 'raise_site', 'got', 'exp', 'op')
     return all(a.get(k) == b.get(k) for k in keys)
 
 
